@@ -28,16 +28,6 @@ VER_RE = re.compile(r'^(\d+(?:\.\d+)*)(?:(a|b|rc)(\d+))?$')
 
 
 # ------------------------------------------------------------------------------------------------ versions
-def ver_term(s):
-    """Coq `ver` for text in the modelled subset N(.N)*((a|b|rc)N)?; None if outside it"""
-    m = VER_RE.match(str(s).strip())
-    if not m:
-        return None
-    rel = '[' + '; '.join(str(int(x)) for x in m.group(1).split('.')) + ']'
-    pre = 'None' if m.group(2) is None else f'(Some ({ {"a": "PA", "b": "PB", "rc": "PRC"}[m.group(2)] }, {int(m.group(3))}))'
-    return f'{{| v_rel := {rel}; v_pre := {pre} |}}'
-
-
 def gen_version(rng, near=None):
     """versions whose numeric and textual orders differ are the interesting ones: multi-digit components next to
     single-digit ones, missing components, pre-releases"""
@@ -165,11 +155,9 @@ def cfg_term(a):
         return (f'{{| vv_needs_bytecode := {C.coq_bool(v["needs"])}; vv_has_bytecode := {C.coq_bool(v["has_bc"])}; '
                 f'vv_has_operands := {C.coq_bool(v["has_ops"])}; vv_count := {cnt}; vv_sets := {sets}; '
                 f'vv_specific_lens := {C.zlist(v["lens"])} |}}')
-    if a['min_version'] is None:
-        mv = 'None'
-    else:
-        t = ver_term(a['min_version'])
-        mv = '(Some None)' if t is None else f'(Some (Some {t}))'
+    # the version text goes to the model as written; Config.parse_version reads it
+    mv = 'min_version_of_text ' + ('None' if a['min_version'] is None else f'(Some {C.coq_string_codes(str(a["min_version"]))})')
+    mv = '(' + mv + ')'
     zones = '[' + '; '.join(f'({C.coq_string_codes(n)}, {C.zlit(s)}, {C.zlit(e)})' for n, s, e in a['zones']) + ']'
     ranges = '[' + '; '.join(f'({C.zlit(lo)}, {C.zlit(hi)})' for lo, hi in a['ranges']) + ']'
     return (f'{{| vc_general := {C.coq_bool(a["general"])}; vc_instructions := {C.coq_bool(a["instructions"])}; '
@@ -485,8 +473,8 @@ def gate_tie():
         from packaging import version
         v = version.parse(c['version'])
         return 'newer' if v > version.parse(RUNNING) else ('older' if v < version.parse(MIN_SUPPORTED) else 'in-range')
-    return Tie(name='gate', imports=['Base', 'Config'], run_def='fun v => Some (run_gate v)', eqb='obs_bool_eqb',
-               gen=gen_gate_cases, impl=impl_compile, case_term=lambda c: ver_term(c['version']), obs_term=_obs,
+    return Tie(name='gate', imports=['Base', 'Config'], run_def='fun s => Some (run_gate_text s)', eqb='obs_bool_eqb',
+               gen=gen_gate_cases, impl=impl_compile, case_term=lambda c: C.coq_string_codes(c['version']), obs_term=_obs,
                classify=cls, shard=200, timeout=120)
 
 
@@ -519,10 +507,11 @@ def gen_require_cases(rng, tier):
 
 def require_tie():
     def term(c):
-        cond = 'None' if c['op'] is None else f'(Some ({OPS[c["op"]]}, {ver_term(c["req_version"])}))'
-        return f'({C.coq_string_codes(c["isa_name"])}, {ver_term(c["isa_version"])}, {C.coq_string_codes(c["req_name"])}, {cond})'
+        cond = 'None' if c['op'] is None else f'(Some ({OPS[c["op"]]}, {C.coq_string_codes(c["req_version"])}))'
+        return (f'({C.coq_string_codes(c["isa_name"])}, {C.coq_string_codes(c["isa_version"])}, '
+                f'{C.coq_string_codes(c["req_name"])}, {cond})')
 
     def cls(c):
         return ('name-mismatch' if c['req_name'] != c['isa_name'] else 'name-ok') + ('' if c['op'] is None else ' ' + c['op'])
-    return Tie(name='require', imports=['Base', 'Config'], run_def='fun c => Some (run_require c)', eqb='obs_bool_eqb',
+    return Tie(name='require', imports=['Base', 'Config'], run_def='run_require_text', eqb='obs_bool_eqb',
                gen=gen_require_cases, impl=impl_compile, case_term=term, obs_term=_obs, classify=cls, shard=200, timeout=120)
